@@ -21,7 +21,8 @@ func init() {
 			"O3 the cached CID is only ever stored from Undef, from CidBuilder().Sum(n.encoded.encoded) of the same node, or from the block CID in a decoder, the re-encode in EncodeProtobuf is preceded by cached=Undef, and every nil-error return of EncodeProtobuf has a defined cache; Cid() returns the cache only on EncodeProtobuf's nil edge; " +
 			"O4 link sorts are stable sorts whose comparator compares Name ascending only; " +
 			"O5 in-place stores to format.Link fields happen only on freshly allocated links (table exception: dagmodifier, followed by forced re-encode); " +
-			"O6 encoder key set of marshalImmutable equals the field set read back by fromImmutableNode. " +
+			"O6 encoder key set of marshalImmutable equals the field set read back by fromImmutableNode; " +
+			"O7 storage isolation: a store to links never installs a caller's slice or another node's link list, no exported function returns the field's own slice, and a single link appended by an exported method is not the caller's pointer. " +
 			"NOT decided: byte-level canonical form produced by go-codec-dagpb, equality of decoded data/links (runtime values).",
 		Assume:    []string{"unexported fields of ProtoNode are only reachable from package merkledag (Go visibility)", "go-codec-dagpb encodes what it is given"},
 		Technique: "SSA path rules: coupled-mutation (R-PAIR), must-follow (R-POST), value provenance (R-FLOW), edge dominance (R-DOM), callee identity (R-API), comparator shape (R-MIRROR), encoder/decoder table (R-TABLE)",
@@ -343,6 +344,9 @@ func runC11(c *an.Ctx) {
 		})
 	}
 	c.Min("O5 in-place stores to links obtained from a node", nO5, 1)
+
+	// ---- O7: storage isolation of the link list (c11_o7.go)
+	c11O7(c, fns, fLinks)
 
 	// ---- O6: encoder keys vs decoder accessors
 	mi, fi := c11Codec(fns)
